@@ -17,6 +17,7 @@ func c16(c *Ctx) {
 	a := c.processor()
 	p, R := a.p, c.R
 	R.Trust("go/types + go/ssa", "badger: a committed Update is durable across process kill; value log replay on reopen", "the OS page cache survives a process kill")
+	loopVarRule(c, p, "C16.loopvar", pkgDB)
 	R.Assumption("kill/reopen cycles are not executed; badger's recovery is trusted as documented")
 	st := a.store
 	// ---- ack-implies-commit
